@@ -330,6 +330,11 @@ Definition filter_args_model (s : sig) (ign : list key) (meth : option (name * v
 Definition filter_args_opaque (c : call) : adict :=
   [(KStar, VTuple (cpos c)); (KStarStar, VDict (ckw c))].
 
+(* which callables take that branch: `if not inspect.ismethod(func) and not inspect.isfunction(func)`.
+   Builtin functions and bound builtin methods (len, [].count), classes, partial objects and callable instances
+   are neither -> fallback; Python functions (also functools.wraps wrappers) and bound Python methods are walked. *)
+Definition takes_fallback (is_method is_function : bool) : bool := negb is_method && negb is_function.
+
 (* ------------------------------------------------- the fragment in which the code is right *)
 (* [nps] = the keywordable parameters not yet visited, [npos] = positional arguments left for
    them.  A defaulted parameter that the call omits must be followed by defaulted parameters only
